@@ -255,7 +255,11 @@ func runReaderHistory(c *ReaderCase, cv *cov, checkLive bool, hooks *readerHooks
 					}
 				}
 				lives = nil
-				if err := r.Release(nil); err != nil {
+				var relArg error
+				if op.N%2 == 1 {
+					relArg = errors.New("release reason") // the argument must not change what Release does to unread data
+				}
+				if err := r.Release(relArg); err != nil {
 					v = evid.Failf("step %d release: err=%v", step, err)
 					return
 				}
@@ -394,11 +398,19 @@ func genReaderCase(t *rapid.T) ReaderCase {
 	c.Total = rapid.OneOf(rapid.IntRange(0, 300), rapid.IntRange(0, 20000), rapid.IntRange(0, 100000)).Draw(t, "total")
 	c.Bytes = rapid.IntRange(0, 3).Draw(t, "bytesReader") == 0
 	if c.Bytes {
-		switch rapid.IntRange(0, 2).Draw(t, "capKind") {
+		switch rapid.IntRange(0, 3).Draw(t, "capKind") {
 		case 0:
 			c.Cap = c.Total
 		case 1:
 			c.Cap = nextPow2(c.Total)
+		case 2: // an empty (or short) slice of a larger power-of-two buffer, e.g. a recycled frame[:0]
+			if rapid.Bool().Draw(t, "emptySlice") {
+				c.Total = 0
+			}
+			c.Cap = rapid.SampledFrom([]int{16, 4096, 8192, 65536}).Draw(t, "pow2cap")
+			if c.Cap < c.Total {
+				c.Cap = nextPow2(c.Total)
+			}
 		default:
 			c.Cap = c.Total + rapid.IntRange(0, 5000).Draw(t, "spare")
 		}
